@@ -1499,6 +1499,8 @@ func evmGenP(r *Rng, caller int, s evmSetup) *evmPCall {
 		p.To = r.Intn(5)
 		if r.Chance(25) {
 			p.To = 5 + r.Intn(9) // a precompile or module address: the bank refuses those as withdraw address (the escrow account, 13, is allowed)
+		} else if r.Chance(10) {
+			p.To = aNew0 + r.Intn(6) // an address without an account
 		}
 	}
 	return p
@@ -1550,6 +1552,36 @@ func evmGenBody0(r *Rng, self int, depth int, s evmSetup) []evmInstr {
 			}
 			body = append(body, ins)
 			continue
+		}
+		if self >= aC1 && self <= aC3 && depth < 3 && i == 0 && r.Chance(60) {
+			// the EVM looks at an address that has no account, a precompile call makes the bank create and credit it
+			// (rewards paid to a withdraw address without an account), then the EVM sends value to it
+			who := -1
+			for _, a := range []int{aO, self} {
+				if a < len(s.Withdraw) && s.Withdraw[a] >= aNew0 && a < len(s.Deleg) && s.Deleg[a] != "0" {
+					who = a
+				}
+			}
+			if who >= 0 {
+				x := s.Withdraw[who]
+				probe := evmInstr{Op: "balance", Addr: x}
+				if r.Chance(30) {
+					probe = evmInstr{Op: "call", Addr: x, Catch: true}
+				}
+				m := []string{"withdraw", "withdraw", "claim", "delegate"}[r.Intn(4)]
+				pc := &evmPCall{Method: m, Who: who}
+				if m == "delegate" {
+					pc.Amt = fmt.Sprint(1 + r.Intn(50))
+				}
+				body = append(body, probe, evmInstr{Op: "pcall", P: pc, Catch: true, Record: r.Chance(40)})
+				if r.Chance(80) {
+					body = append(body, evmInstr{Op: "call", Addr: x, Catch: r.Chance(70), Value: fmt.Sprint(1 + r.Intn(40))})
+				}
+				if r.Chance(40) {
+					body = append(body, evmInstr{Op: "balance", Addr: x})
+				}
+				continue
+			}
 		}
 		if self >= aC1 && self <= aC3 && depth < 3 && r.Chance(5) {
 			// a slot is changed by this frame and written back to the value it had before the transaction (0) by a
@@ -1657,6 +1689,10 @@ func evmGen(r *Rng) evmInput {
 		s.Withdraw[a] = -1
 		if r.Chance(15) {
 			s.Withdraw[a] = r.Intn(5)
+		} else if r.Chance(6) {
+			// rewards go to an address that has no account yet (one of the CREATE addresses): the bank creates it when
+			// the precompile pays out, behind the back of a StateDB that may have looked at the address before
+			s.Withdraw[a] = aNew0 + r.Intn(6)
 		}
 	}
 	s.WdOff = r.Chance(8)
